@@ -634,8 +634,17 @@ def _run_property(args, prop, tier, work, outdir, t0):
     if not jobs:
         raise Fault('no checks selected for %s' % prop)
     random.Random(args.seed).shuffle(jobs)
-    # longest first when a cost hint is given
-    jobs.sort(key=lambda j: -int(j[0].kv.get('cost', '1')))
+    # scheduling only (no effect on verdicts): longest first, by the cost hint of the check and by the solver seconds of an
+    # earlier run recorded in tools/timings.json (committed; regenerated by hand from the evidence files)
+    try:
+        timings = json.load(open(os.path.join(VERIF, 'tools', 'timings.json')))
+    except Exception:
+        timings = {}
+    def _prio(j):
+        c, v = j[0], j[1]
+        name = '%s.%s%s' % (c.unit.name, c.id, '' if v is None else '[%s=%s]' % v)
+        return -(int(c.kv.get('cost', '1')) * 100000 + timings.get(name, 30))
+    jobs.sort(key=_prio)
     log('property %s tier %s: %d units, %d check runs, %d workers' % (prop, tier, len(units), len(jobs), args.jobs))
     with cf.ThreadPoolExecutor(max_workers=args.jobs) as ex:
         for f in [ex.submit(u.build) for u in units]:
